@@ -154,6 +154,9 @@ class IoModel:
         R("BufWriter::new", lambda ex, st, fr, c, a, d, r: VStruct("BufWriter", [a[0], VVec([])]))
         R("BufWriter as Write::write_all", m_bw_write(io))
         R("BufWriter as Write::flush", m_bw_flush(io))
+        R("BufWriter::get_mut", lambda ex, st, fr, c, a, d, r: VRef(deref_ref2(st, a[0]).cell, deref_ref2(st, a[0]).path + (0,)))
+        R("BufWriter::capacity", lambda ex, st, fr, c, a, d, r: VInt(8192, "usize"))
+        R("BufWriter::buffer", lambda ex, st, fr, c, a, d, r: VRef(st.alloc(VOpaque("bytes", ("slice", "bufwriter-buffer", z3.IntVal(0), ex.new_int(st, "usize", "buffered").t)))))
         R("BufWriter::get_ref", lambda ex, st, fr, c, a, d, r: VRef(deref_ref2(st, a[0]).cell, deref_ref2(st, a[0]).path + (0,)))
         R("BufWriter::into_inner", m_bw_into_inner(io))
         R("IntoInnerError::into_error", lambda ex, st, fr, c, a, d, r: a[0] if isinstance(a[0], VOpaque) else ioerr())
@@ -474,8 +477,12 @@ def m_tmp_new(io):
 
 
 def m_hasher_update(ex, st, fr, c, a, d, r):
-    h = deref_all(st, a[0])
-    h.data = h.data + (data_desc(st, a[1]),)
+    # never mutate in place: VOpaque values are shared between forked states
+    ref = a[0]
+    while isinstance(st.load(ref), VRef):
+        ref = st.load(ref)
+    h = st.load(ref)
+    st.store(ref, VOpaque(h.tag, tuple(h.data) + (data_desc(st, a[1]),)))
     return a[0]
 
 
